@@ -179,6 +179,28 @@ def run(ctx):
             ctx.ob('SEEK-RESULT', '%s#%d' % (lv, nst), ok, sk.loc(a), '%s = %s with %s >= %s%s' % (lv, resvar, resvar, b.lo, '' if ok else ' — PSF_SEEK_ERROR (-1) from a failed codec seek becomes the position'), repr(b))
     ctx.require(nst >= 3, 'only %d stores of the codec seek result found in %s' % (nst, sk.name))
 
+    ctx.rule('PROBE-RESTORE', 'a header helper that repositions the file to look at the audio data (a psf_fseek to something other than psf->dataoffset followed by reads: wavlike_analyze) puts it back to '
+             'psf->dataoffset on every path to its exits: it runs as the last step of the header reader, so what it leaves behind is where the first read after sf_open starts, while '
+             'sf_seek (0) goes to dataoffset', floor=1)
+    n_pr = 0
+    for g in sorted(prog.lib_fns(), key=lambda g_: (g_.file, g_.line)):
+        if not (g.name.endswith('_analyze') or g.name.endswith('_probe')):
+            continue
+        seeks = [c_ for c_ in g.calls('psf_fseek') if g.cfg.point(c_) is not None]
+        away = [c_ for c_ in seeks if g.s(g.unwrap(g.args(c_)[1])) != 'psf->dataoffset']
+        back = [c_ for c_ in seeks if g.s(g.unwrap(g.args(c_)[1])) == 'psf->dataoffset' and g.unwrap(g.args(c_)[2]).get('v') == 0]
+        if not away:
+            continue
+        n_pr += 1
+        ok, wit = True, None
+        for a_ in away:
+            r_, w_ = g.cfg.must_pass(a_, back)
+            if not r_:
+                ok, wit = False, w_
+        ctx.ob('PROBE-RESTORE', g.name, ok, g.loc(away[0]), 'every path from the probing seek to an exit passes psf_fseek (psf, psf->dataoffset, SEEK_SET)' if ok else
+               'a path from the probing seek to an exit (lines %s) does not put the file back to psf->dataoffset: the first read after sf_open starts somewhere else than a read after sf_seek (0)' % g.cfg.block_lines(wit)[-5:], None)
+    ctx.require(n_pr >= 1, 'no probing header helper found')
+
     ctx.rule('BLOCK-FILL', 'a block reader that fills a buffer of its private state with psf_fread and then decodes from it does not decode bytes the read did not deliver: on every path from the read '
              'to a use of the buffer the function returns, clears the buffer tail (memset) or stores the delivered count in the private object first; paths on which the read is known complete '
              'are exempt. Otherwise the samples of a truncated last block depend on which block was decoded before (sequential read vs. seek). Exceptions with a written argument whose supporting '
